@@ -57,6 +57,13 @@ def cases(tier, seed, prep=None):
                 for d in (0, 1):
                     out.append({"kind": "mitm", "seed": b + 40000 + k, "frame": idx, "field": field, "dir": d})
                     k += 1
+    # frames made up by somebody without the key, slipped in between two genuine ones: empty, shorter than a tag, random
+    for rep in range(1 if q else 30):
+        for idx in range(0, 8):
+            for field in ("inject-empty", "inject-short", "inject-random", "inject-two-empty"):
+                for d in (0, 1):
+                    out.append({"kind": "mitm", "seed": b + 50000 + k, "frame": idx, "field": field, "dir": d})
+                    k += 1
     # re-framing: a frame made of several Noise messages is cut at a message boundary by rewriting the
     # length prefix (the pieces are individually authentic); nothing of it may reach the manager
     for i in range(24 if q else 800):
@@ -542,7 +549,14 @@ def run_mitm(spec):
             elif state["n"] == spec["frame"] and state["fired"] is None:
                 b = bytearray(f)
                 fld = spec["field"]
-                if fld == "truncate":
+                if fld.startswith("inject"):
+                    made_up = {"inject-empty": b"", "inject-short": rng.randbytes(rng.randint(1, 15)),
+                               "inject-random": rng.randbytes(rng.randint(16, 60)), "inject-two-empty": b""}[fld]
+                    b = bytearray(len(made_up).to_bytes(4, "big") + made_up)
+                    if fld == "inject-two-empty":
+                        b += b"\x00\x00\x00\x00"
+                    b += f                     # the genuine frame follows the made-up one
+                elif fld == "truncate":
                     b = b[:rng.randrange(4, len(b))] if len(b) > 4 else b
                     # keep the length prefix honest about what follows being short: receiver waits
                 elif fld == "length":
